@@ -1,11 +1,11 @@
 package checks
 
 import (
-	"os"
-	"strconv"
 	"fmt"
 	"math/rand"
+	"os"
 	"sort"
+	"strconv"
 	"strings"
 
 	"verif/engine/batch"
@@ -19,17 +19,17 @@ const (
 	CmpVal = 1 << iota
 	CmpEnd
 	CmpTrace
-	CmpErrs      // full error list (messages, order)
-	CmpErrTypes  // errList / *parserError / Inner identity
-	CmpPanic     // escaping panic
-	CmpState     // final state store
-	CmpGLog      // globalStore log
-	CmpInput     // input buffer unchanged
-	CmpExprCnt   // expression count equals the model's
-	CmpNoMatch   // the synthesized farthest-failure error (position + expected list)
-	CmpInvalid   // invalid-encoding errors: set of positions
-	CmpOK        // success/failure only (error-nil vs model)
-	CmpMemoOnce  // under Memoize: no (block id, offset) twice; evaluations <= #exprs x (len+1)
+	CmpErrs     // full error list (messages, order)
+	CmpErrTypes // errList / *parserError / Inner identity
+	CmpPanic    // escaping panic
+	CmpState    // final state store
+	CmpGLog     // globalStore log
+	CmpInput    // input buffer unchanged
+	CmpExprCnt  // expression count equals the model's
+	CmpNoMatch  // the synthesized farthest-failure error (position + expected list)
+	CmpInvalid  // invalid-encoding errors: set of positions
+	CmpOK       // success/failure only (error-nil vs model)
+	CmpMemoOnce // under Memoize: no (block id, offset) twice; evaluations <= #exprs x (len+1)
 )
 
 // OptSet is one runtime option variation.
@@ -42,30 +42,30 @@ type OptSet struct {
 	Memo         bool
 	Debug        bool
 	Stats        bool
-	Init         int // InitState values (grammars with a state store only)
+	Init         int  // InitState values (grammars with a state store only)
 	Reader       bool // through ParseReader; the result must also survive a later ParseReader call
 }
 
 // MCConfig configures the generic model check.
 type MCConfig struct {
-	Profile      *gast.Profile
-	Grammars     []*gast.Grammar // fixed grammars run before the generated ones (strata, witnesses)
-	NGrammars    int
-	FlagSets     [][]string
-	InputsPer    int
-	ExhaustLimit int
-	ExhaustLen   int
-	Invalid      bool // inputs contain invalid UTF-8
-	OptSets      []OptSet
-	Entrypoints  bool // every rule also as Entrypoint (first flag set only)
-	Compare      int
+	Profile       *gast.Profile
+	Grammars      []*gast.Grammar // fixed grammars run before the generated ones (strata, witnesses)
+	NGrammars     int
+	FlagSets      [][]string
+	InputsPer     int
+	ExhaustLimit  int
+	ExhaustLen    int
+	Invalid       bool // inputs contain invalid UTF-8
+	OptSets       []OptSet
+	Entrypoints   bool // every rule also as Entrypoint (first flag set only)
+	Compare       int
 	DebugOptEvery int // option sets that include Debug use every n-th input only (0/1 = all)
-	DebugEvery   int // every n-th input additionally under Debug(true) for the position-purity monitor (0 = never)
-	NonTrivial   func(m *ref.Result) bool
-	Sig          func(g *gast.Grammar, in []byte, m *ref.Result, field string) []string
-	Chunk        int
-	ExtraInputs  func(g *gast.Grammar, r *rand.Rand) [][]byte
-	KeepGrammar  func(g *gast.Grammar) bool
+	DebugEvery    int // every n-th input additionally under Debug(true) for the position-purity monitor (0 = never)
+	NonTrivial    func(m *ref.Result) bool
+	Sig           func(g *gast.Grammar, in []byte, m *ref.Result, field string) []string
+	Chunk         int
+	ExtraInputs   func(g *gast.Grammar, r *rand.Rand) [][]byte
+	KeepGrammar   func(g *gast.Grammar) bool
 	// StalePS: pigeon leaves c.pos / c.text stale in predicate and state blocks (known finding
 	// F02). When set, the offset / position / text fields of P and S events are masked on both
 	// sides before traces are compared, and every event where they differ is counted under F02.
